@@ -368,10 +368,12 @@ func init() {
 				{Part: "C12/closerace", Build: "instr", Args: map[string]string{"bound": "4", "conc": "0"}, Shards: 16, BudgetS: 600, Label: "Close || sequential ReadAt || third, db4"},
 				{Part: "C12/closerace", Build: "instr", Args: map[string]string{"strategy": "por", "thirds": "Stat"}, Shards: 16, BudgetS: 600, Label: "Close || ReadAt || Stat, por", Optional: true},
 				{Part: "C12/closefail", Build: "instr", Args: map[string]string{"bound": "3"}, Shards: 8, BudgetS: 300, Label: "Close whose request cannot be written (transient failure), db3"},
+				{Part: "C12/sharedpos", Build: "instr", Args: map[string]string{"bound": "5"}, Shards: 16, BudgetS: 600, Label: "Write/Read/Seek by goroutines sharing one File, db5"},
 			}, func(reg.Job) bool { return true })
 		}
 		return withPolicies(tier, []reg.Job{{Part: "C12/closerace", Build: "instr", Args: map[string]string{"bound": "4"}, Shards: 16, BudgetS: 100, Label: "Close || ReadAt || third, db4"},
-			{Part: "C12/closefail", Build: "instr", Args: map[string]string{"bound": "3"}, Shards: 4, BudgetS: 100, Label: "Close whose request cannot be written (transient failure), db3"}}, func(reg.Job) bool { return true })
+			{Part: "C12/closefail", Build: "instr", Args: map[string]string{"bound": "3"}, Shards: 4, BudgetS: 100, Label: "Close whose request cannot be written (transient failure), db3"},
+			{Part: "C12/sharedpos", Build: "instr", Args: map[string]string{"bound": "4"}, Shards: 16, BudgetS: 100, Label: "Write/Read/Seek by goroutines sharing one File, db4"}}, func(reg.Job) bool { return true })
 	}
 	c12Prop.Rule += "; scheduled half: one File shared by three goroutines (Close || 3-chunk concurrent ReadAt || one of WriteAt, Stat, Truncate, a second Close, Read) against the permuting peer, all schedules with <= d deviations; " +
 		"oracle: each call returns its proper result or os.ErrClosed, exactly one CLOSE on the wire and nothing carrying the handle after it"
